@@ -61,6 +61,7 @@ fn main() {
                     let mut r = common::Report::new(p, tier, "model_checking");
                     seq_checks::run_into(&mut r, p, tier, 0.5);
                     conc_checks::run_into(&mut r, p, tier, 0.5);
+                    sweeps::add_to(&mut r, p, tier);
                     r.finish()
                 }
                 "C02" => {
